@@ -19,6 +19,9 @@
       one instance (that instance is assumed, not proved, to satisfy the standard model).
     * for the exponential recurrence the same model gives a bound that does not grow at all: the update is contractive and
       the drift stays below `c/(1−ρ)` at every step of every stream (`C07_ema_float_drift_uniform`).
+    * WMA adds its running `total` into `numerator` at every step; the same analysis bounds the drift of `total` linearly
+      and that of `numerator` only quadratically, `t·q^t·cN + t²·q^(2t+2)·cT` (`C07_wma_float_drift_quadratic`) — this is
+      why the linear allowance is *not* guaranteed for WMA / HMA on very long streams (known finding numeric-drift:hma).
   These reduce "every history length" to a bounded suffix.  Floating-point drift of the running
   accumulators over 10^4 … 10^6+ steps is measured, not proved: the correspondence run drives every
   method for a long stream with regime changes and compares, at late positions (dense around 255, 256,
@@ -29,6 +32,7 @@ import YataProofs.Locality
 import YataProofs.LocalityAll
 import YataProofs.FloatBound
 import YataProofs.FloatBoundEMA
+import YataProofs.FloatBoundWMA
 namespace Yata.C07
 open Yata
 variable {α : Type} {K : Type} [Field K] [LinearOrder K] [IsStrictOrderedRing K]
@@ -82,6 +86,23 @@ theorem C07_ema_float_drift_uniform (fl : K → K) (u : K) (hu : 0 ≤ u) (hfl :
   · simp only [sub_self, abs_zero]; exact div_nonneg hc (le_of_lt hpos)
   · rw [mul_div_cancel₀ _ (ne_of_gt hpos)]
 
+/-- WMA (the recursion `numerator += L·x + total; total += prev − x` with the model's exact values as reference): the
+    provable drift bound is quadratic in the number of steps -/
+theorem C07_wma_float_drift_quadratic (fl : K → K) (u : K) (hu : 0 ≤ u) (hfl : ∀ x, |fl x - x| ≤ u * |x|)
+    (L M A B : K) (hL : 0 ≤ L) (hM : 0 ≤ M) (hA : 0 ≤ A) (hB : 0 ≤ B) (steps : List (K × K)) (N0 T0 : K)
+    (hb : FloatBound.BoundedW L M A B (N0, T0) steps) :
+    |(FloatBound.wmaFl fl L (N0, T0) steps).1 - (FloatBound.wmaEx L (N0, T0) steps).1| ≤
+      (steps.length : K) * (1 + u) ^ steps.length * ((1 + u) * u * (L * M + A) + u * B) +
+        (steps.length : K) ^ 2 * (1 + u) ^ (2 * steps.length + 2) * (u * A + 2 * u * M * (1 + u)) :=
+  FloatBound.wma_drift_quadratic fl u hu hfl L M A B hL hM hA hB steps N0 T0 hb
+
+/-- the exact recursion used above is the model's own update -/
+theorem C07_wma_model_update (s : WMA K) (x prev : K) (w : Window K) (h : s.window.push x = .ok (prev, w)) :
+    ∃ s', s.next x = .ok (s'.numerator * s'.invert_sum, s') ∧
+      (s'.numerator, s'.total) = FloatBound.wmaEx s.float_length (s.numerator, s.total) [(x, prev)] := by
+  refine ⟨{ s with numerator := s.numerator + (s.float_length * x + s.total), total := s.total + (prev - x), window := w }, ?_, rfl⟩
+  simp [WMA.next, h, WMA.peek]
+
 theorem C07_recurrence_restarts (a v : K) (xs ys : List K) :
     Spec.emaRec a v (xs ++ ys) = Spec.emaRec a (Spec.emaRec a v xs) ys := emaRec_append_list a v xs ys
 
@@ -103,3 +124,5 @@ end Yata.C07
 #print axioms Yata.C07.C07_window_specs_locality
 #print axioms Yata.C07.C07_sma_float_drift
 #print axioms Yata.C07.C07_ema_float_drift_uniform
+#print axioms Yata.C07.C07_wma_float_drift_quadratic
+#print axioms Yata.C07.C07_wma_model_update
